@@ -158,6 +158,11 @@ class Simulator:
             for sinkPort in sinkPorts:
                 sink = sinkPort.parent
 
+                if (sink is obj):
+                    # the leaf reads its own output: a combinational loop of length 1,
+                    # which the position comparison in topologicalSort can never see
+                    raise Exception('Combinational loop: {} depends on its own output {}'.format(obj.getFullPath(), port.wire.getFullPath()))
+
                 if (sink.isPropagatable()):
                     sinks.append(sink)
         
